@@ -388,7 +388,7 @@ impl ByteArrayDecoderPlain {
 
         let estimated_bytes = remaining_bytes
             .checked_mul(to_read)
-            .map(|x| x / self.max_remaining_values)
+            .and_then(|x| x.checked_div(self.max_remaining_values))
             .unwrap_or_default();
 
         output.values.reserve(estimated_bytes);
